@@ -213,13 +213,15 @@ def relation(rng, kind):
     return M, d
 
 
-def simulate(rng, transform, unitcell_mod, pars, ngrains, strain=5e-3, tmax=500.0, related=None, rng2=None):
+def simulate(rng, transform, unitcell_mod, pars, ngrains, strain=5e-3, tmax=500.0, related=None, rng2=None, dsmax=0.85):
     """returns grains (ubi_true, t_true), peak table dict(sc, fc, omega, grain, h, k, l).
+    dsmax: reflections up to this d* (the SIZE of the peak file: 2 pi dsmax^3 a^3 / 3 peaks per fcc grain on a detector
+    that holds the whole rings; 0.85 = about 100 peaks per grain, 1.9 = about 950).
     related = {child: (parent, kind)}: the child's orientation is the parent's times relation(rng2, kind), its position
     the parent's plus 5..80 um (kept within +-tmax), its strain its own."""
     uc = unitcell_mod.unitcell([pars["cell__a"], pars["cell__b"], pars["cell__c"], pars["cell_alpha"], pars["cell_beta"],
                                 pars["cell_gamma"]], pars["cell_lattice_[P,A,B,C,I,F,R]"])
-    hkls = np.array([h for (_, h) in uc.gethkls(0.85)], float)
+    hkls = np.array([h for (_, h) in uc.gethkls(dsmax)], float)
     grains = []
     rows = []
     Us = []
